@@ -1,0 +1,12 @@
+//go:build verif
+
+package logging
+
+// Contracts for the verif machinery (/verif). Comment-only file.
+
+// Log returns the address of a field of its receiver.
+//@ func (*Logging).Log
+//@   trusted
+//@   pure
+//@   requires lg != nil
+//@   ensures r0 != nil
